@@ -211,6 +211,9 @@ def verify(res, p, v, t, rk_lib, zero, what, tol_w=1e-12, tol_v=1e-12, cum=False
             raise Violation(f"{what}: pore_volume_cumulative has shape {c.shape}, expected ({n - 1},)", tag="shape")
         scale = float(np.sum(np.abs(vols))) + abs(float(v[-1]))
         tol_c = max(tol_v, 1e-12) * scale
+        if not np.all(np.isfinite(vols)):
+            # the recurrences overflowed (inf - inf): no finite running sum exists to compare with (same reading as for D)
+            return widths, vols, dist
         if not abs(c[-1] - v[-1]) <= tol_c:
             raise Violation(f"{what}: cumulative curve ends at {c[-1]!r}, the volume adsorbed at the highest pressure "
                             f"used (p = {p[-1]!r}) is {v[-1]!r}", tag="cumulative_end")
